@@ -74,6 +74,7 @@ def axioms_strategy():
 def oracle_axioms(case):
     fam, th, pts = case['family'], case['theta'], [list(p) for p in case['pts']]
     cop = S.make_copula(fam, th)
+    S.interleave_sibling(cop, fam, th, pts)        # two live copulas of one family: nothing is remembered across them
     tol = tol_F(fam, th)
     U = np.array([p[0] for p in pts])
     V = np.array([p[1] for p in pts])
